@@ -22,7 +22,13 @@ PLAN = dict(
           "repetition), deep (200) and wide (12 groups = 4096 expansions) alternations. The oracle is 'returned': "
           "panics are caught and located, aborts kill the shard and are attributed, every case runs under a "
           "deterministic allocation budget proportional to input length (x expansions for alternations) and a "
-          "60 s wall-clock watchdog. Non-trivial = any input other than a verbatim seed; distinct by fingerprint "
+          "60 s wall-clock watchdog. All of it runs on a 2 MiB thread (Rust's default for spawned threads). "
+          "Deep-structure probes: 20 kinds of structurally huge input (1 000 / 10 000 / 30 000-150 000 brace groups side "
+          "by side or nested, '*' / '?' / sets in a glob, version components and letters, '-' in a name, path segments, "
+          "lines of one summary variable, stream entries, pushes, PLIST lines and @ignore runs, distinfo files and "
+          "lines of one file, pbulk records) each handed to its entry point in a child process with a 2 MiB stack "
+          "and a step budget proportional to the input: the child must exit normally (a signal = abort / stack "
+          "overflow, 97 = budget, 101 = panic). Non-trivial = any input other than a verbatim seed; distinct by fingerprint "
           "of (entry point, input bytes)."),
     technique="runtime monitor: robustness harness (panic capture, allocation step budget, watchdog) over mutated real documents at every public entry point, re-run under debug overflow checks, ASan, Miri and libFuzzer",
     level_text=("Exploration: ~4x10^5 (quick) to ~6x10^6 (thorough) inputs over 15 entry points; thorough repeats the "
@@ -32,5 +38,8 @@ PLAN = dict(
     assumptions=["String-typed entry points receive lossy-decoded text (they cannot receive invalid UTF-8)",
                  "allocation count is an adequate step proxy for the library's loops (CPU-only loops are covered by the watchdog)"],
     not_explored=["unreadable package-database directory (root cannot produce EACCES here; PkgDB::open's read_dir(..).expect is not exercised)",
-                  "alternations with more than 4096 expansions are only compiled", "inputs larger than ~200 KiB"],
+                  "alternations with more than 4096 expansions are only compiled",
+                  "inputs larger than ~200 KiB outside the deep-structure probes (which reach ~20 MB)",
+                  "glob patterns with between 1 000 and 30 000 '*' wildcards (whether known finding K3 bites there depends on the build's stack frame size)",
+                  "stack sizes below 2 MiB"],
 )
